@@ -30,7 +30,11 @@ Local Open Scope nat_scope.
 
 Record slot := {
   mark : nat;               (* 0 free, 1 filled, 2 written *)
-  payload : option nat;     (* n.one / n.multi : the item *)
+  payload : option nat;     (* ghost: the item (= putter) that occupies the slot *)
+  pm : bool;                (* ghost: the occupant came through PutMulti *)
+  c_one : option nat;       (* n.one: None = Completed{}, Some p = the command of putter p *)
+  c_multi : option nat;     (* n.multi: None = nil, Some p = the slice putter p passed to PutMulti *)
+  c_resps : option nat;     (* n.resps: None = nil, Some p = the result slice putter p passed to PutMulti *)
   slept : bool;             (* n.slept *)
   rlock : bool;             (* the reader holds the slot mutex (NextResultCh .. FinishResult) *)
   tk : list nat;            (* putters that hold a ticket for this slot and have not locked yet *)
@@ -44,7 +48,7 @@ Record slot := {
 }.
 
 Definition slot0 : slot :=
-  {| mark := 0; payload := None; slept := false; rlock := false; tk := []; parked1 := []; woken1 := [];
+  {| mark := 0; payload := None; pm := false; c_one := None; c_multi := None; c_resps := None; slept := false; rlock := false; tk := []; parked1 := []; woken1 := [];
      bc := []; wt := []; wparked := false; wwoken := false; fillseq := [] |}.
 
 Inductive wstate := WIdle | WWait (s : nat).                         (* WWait: inside WaitForWrite *)
@@ -68,7 +72,7 @@ Definition init (start : N) : state :=
 
 Inductive label :=
 | PutTicket
-| PutLock (p : nat) (s : nat)
+| PutLock (p : nat) (s : nat) (m : bool)   (* m: the caller is in PutMulti *)
 | PutBcast (p : nat) (s : nat)
 | WNext
 | WWaitEnter
@@ -96,19 +100,29 @@ Definition set_slot (st : state) (i : nat) (v : slot) : state := set_slots st (u
 
 (** slot record updates *)
 Definition sl_lists (x : slot) (t p w b wl : list nat) : slot :=
-  {| mark := mark x; payload := payload x; slept := slept x; rlock := rlock x; tk := t; parked1 := p; woken1 := w;
+  {| mark := mark x; payload := payload x; pm := pm x; c_one := c_one x; c_multi := c_multi x; c_resps := c_resps x; slept := slept x; rlock := rlock x; tk := t; parked1 := p; woken1 := w;
      bc := b; wt := wl; wparked := wparked x; wwoken := wwoken x; fillseq := fillseq x |}.
-Definition sl_fill (x : slot) (p : nat) : slot :=
-  {| mark := 1; payload := Some p; slept := slept x; rlock := rlock x; tk := tk x; parked1 := parked1 x; woken1 := woken1 x;
+(** PutOne writes n.one only, PutMulti writes n.multi and n.resps only *)
+Definition sl_fill (x : slot) (p : nat) (m : bool) : slot :=
+  {| mark := 1; payload := Some p; pm := m;
+     c_one := if m then c_one x else Some p;
+     c_multi := if m then Some p else c_multi x;
+     c_resps := if m then Some p else c_resps x;
+     slept := slept x; rlock := rlock x; tk := tk x; parked1 := parked1 x; woken1 := woken1 x;
      bc := bc x; wt := wt x; wparked := wparked x; wwoken := wwoken x; fillseq := fillseq x ++ [p] |}.
 Definition sl_mark (x : slot) (m : nat) (pl : option nat) : slot :=
-  {| mark := m; payload := pl; slept := slept x; rlock := rlock x; tk := tk x; parked1 := parked1 x; woken1 := woken1 x;
+  {| mark := m; payload := pl; pm := pm x; c_one := c_one x; c_multi := c_multi x; c_resps := c_resps x; slept := slept x; rlock := rlock x; tk := tk x; parked1 := parked1 x; woken1 := woken1 x;
      bc := bc x; wt := wt x; wparked := wparked x; wwoken := wwoken x; fillseq := fillseq x |}.
+(** NextResultCh frees the slot: n.mark = 0; n.one = Completed{}; n.multi = nil; n.resps = nil *)
+Definition sl_clear (x : slot) : slot :=
+  {| mark := 0; payload := None; pm := pm x; c_one := None; c_multi := None; c_resps := None; slept := slept x; rlock := rlock x;
+     tk := tk x; parked1 := parked1 x; woken1 := woken1 x; bc := bc x; wt := wt x; wparked := wparked x; wwoken := wwoken x;
+     fillseq := fillseq x |}.
 Definition sl_writer (x : slot) (sl wp ww : bool) : slot :=
-  {| mark := mark x; payload := payload x; slept := sl; rlock := rlock x; tk := tk x; parked1 := parked1 x; woken1 := woken1 x;
+  {| mark := mark x; payload := payload x; pm := pm x; c_one := c_one x; c_multi := c_multi x; c_resps := c_resps x; slept := sl; rlock := rlock x; tk := tk x; parked1 := parked1 x; woken1 := woken1 x;
      bc := bc x; wt := wt x; wparked := wp; wwoken := ww; fillseq := fillseq x |}.
 Definition sl_rlock (x : slot) (b : bool) : slot :=
-  {| mark := mark x; payload := payload x; slept := slept x; rlock := b; tk := tk x; parked1 := parked1 x; woken1 := woken1 x;
+  {| mark := mark x; payload := payload x; pm := pm x; c_one := c_one x; c_multi := c_multi x; c_resps := c_resps x; slept := slept x; rlock := b; tk := tk x; parked1 := parked1 x; woken1 := woken1 x;
      bc := bc x; wt := wt x; wparked := wparked x; wwoken := wwoken x; fillseq := fillseq x |}.
 
 Definition set_counts (st : state) (wr r1 r2 : N) (a b c : nat) (ws rs : list nat) : state :=
@@ -143,13 +157,13 @@ Definition lstep (k : nat) (st : state) (l : label) : option state :=
       let x := slots st s in
       Some (set_counts (set_slot st s (sl_lists x (tk x ++ [p]) (parked1 x) (woken1 x) (bc x) (wt x)))
               w' (read1 st) (read2 st) p (n1 st) (n2 st) (wseq st) (rseq st))
-  | PutLock p s =>
+  | PutLock p s m =>
       let x := slots st s in
       if negb (rlock x) && (memb p (tk x) || memb p (woken1 x)) then
         let x1 := if memb p (tk x) then sl_lists x (remove1 p (tk x)) (parked1 x) (woken1 x) (bc x) (wt x)
                   else sl_lists x (tk x) (parked1 x) (remove1 p (woken1 x)) (bc x) (wt x) in
         if Nat.eqb (mark x1) 0 then
-          let x2 := sl_fill x1 p in
+          let x2 := sl_fill x1 p m in
           Some (set_slot st s (if slept x2 then sl_lists x2 (tk x2) (parked1 x2) (woken1 x2) (bc x2 ++ [p]) (wt x2)
                                else sl_lists x2 (tk x2) (parked1 x2) (woken1 x2) (bc x2) (wt x2 ++ [p])))
         else Some (set_slot st s (sl_lists x1 (tk x1) (parked1 x1 ++ [p]) (woken1 x1) (bc x1) (wt x1)))
@@ -204,7 +218,7 @@ Definition lstep (k : nat) (st : state) (l : label) : option state :=
           let x := slots st s in
           if rlock x then None
           else if Nat.eqb (mark x) 2 then
-            let st1 := set_slot st s (sl_rlock (sl_mark x 0 None) true) in
+            let st1 := set_slot st s (sl_rlock (sl_clear x) true) in
             Some (set_rpc (set_counts st1 (write st1) (read1 st1) r2' (nw st1) (n1 st1) (S (n2 st1)) (wseq st1)
                              (rseq st1 ++ opt_list (payload x)))
                     (RHold s (Some (match payload x with Some i => i | None => 0%nat end))))
@@ -256,7 +270,10 @@ Fixpoint run (k : nat) (ls : list label) (st : state) : option state :=
 (** A recorded step and what the hook saw: [t_code] 1 = a command was filled / taken / a result
     channel was taken, 2 = filled and the writer was asleep, 0 = nothing (parked, or an empty poll);
     [t_item] = the item involved when there is one. *)
-Record tstep := { t_label : label; t_code : option nat; t_item : option nat }.
+Record tstep := { t_label : label; t_code : option nat; t_item : option nat;
+                  t_tuple : option (option nat * option nat * option nat) }.
+(** [t_tuple]: what the call returned as (one, multi, resps) - None = zero value / nil, Some p = the value
+    putter p supplied - for the writer's and the reader's hand-outs ([resps] is not returned to the writer) *)
 
 Definition opt_nat_eqb (a b : option nat) : bool :=
   match a, b with Some x, Some y => Nat.eqb x y | None, None => true | _, _ => false end.
@@ -264,7 +281,7 @@ Definition opt_nat_eqb (a b : option nat) : bool :=
 (** what the model computes for the same observation *)
 Definition observe (k : nat) (st st' : state) (l : label) : option nat * option nat :=
   match l with
-  | PutLock p s =>
+  | PutLock p s _ =>
       if memb p (bc (slots st' s)) then (Some 2, Some p)
       else if memb p (wt (slots st' s)) then (Some 1, Some p) else (Some 0, None)
   | WNext | WWaitEnter | WWaitRetry =>
@@ -275,11 +292,24 @@ Definition observe (k : nat) (st st' : state) (l : label) : option nat * option 
   | _ => (None, None)
   end.
 
+(** the (one, multi, resps) the code returns: the fields of the slot at the moment of the call *)
+Definition handed (k : nat) (st : state) (l : label) : option nat * option nat * option nat :=
+  match l with
+  | WNext | WWaitEnter => let x := slots st (idx k (u32 (read1 st + 1)%N)) in (c_one x, c_multi x, None)
+  | WWaitRetry => match wpc st with WWait s => let x := slots st s in (c_one x, c_multi x, None) | WIdle => (None, None, None) end
+  | RNext => let x := slots st (idx k (u32 (read2 st + 1)%N)) in (c_one x, c_multi x, c_resps x)
+  | _ => (None, None, None)
+  end.
+
+Definition tuple_eqb (a b : option nat * option nat * option nat) : bool :=
+  match a, b with (a1, a2, a3), (b1, b2, b3) => opt_nat_eqb a1 b1 && opt_nat_eqb a2 b2 && opt_nat_eqb a3 b3 end.
+
 Definition obs_ok (k : nat) (st st' : state) (x : tstep) : bool :=
   match t_code x with
   | None => true
   | Some c => let '(c', i') := observe k st st' (t_label x) in
-              opt_nat_eqb (Some c) c' && match t_item x with None => true | Some i => opt_nat_eqb (Some i) i' end
+              opt_nat_eqb (Some c) c' && match t_item x with None => true | Some i => opt_nat_eqb (Some i) i' end &&
+              match t_tuple x with None => true | Some t => tuple_eqb t (handed k st (t_label x)) end
   end.
 
 Fixpoint replay (k : nat) (ts : list tstep) (st : state) : option state :=
@@ -320,19 +350,25 @@ Inductive case :=
 | RingEnc (k : nat) (start : N) (ds : list N) (np : nat).
 
 (** compact encoding of a trace as a list of numbers (the case files are much cheaper to parse);
-    a number packs kind (4 bits), p (12), s (4), code+1 or 0 (2), item+1 or 0 (13) *)
-Definition dec_label (kind p s : nat) : label :=
+    a number packs kind (4 bits), p (12), s (4), code+1 or 0 (2), item+1 or 0 (13), the PutMulti flag (1),
+    tuple present (1) and one+1, multi+1, resps+1 or 0 (8 bits each) *)
+Definition dec_label (kind p s : nat) (m : bool) : label :=
   match kind with
-  | 0 => PutTicket | 1 => PutLock p s | 2 => PutBcast p s | 3 => WNext | 4 => WWaitEnter | 5 => WWaitRetry
+  | 0 => PutTicket | 1 => PutLock p s m | 2 => PutBcast p s | 3 => WNext | 4 => WWaitEnter | 5 => WWaitRetry
   | 6 => RNext | 7 => RDeliver p | 8 => RUnlock | 9 => RSignal None | 10 => RSignal (Some p) | _ => WNextBusy
   end.
 
 Definition dec_opt (x : N) : option nat := if N.eqb x 0 then None else Some (N.to_nat (x - 1)).
 
 Definition dec_step (x : N) : tstep :=
-  {| t_label := dec_label (N.to_nat (x mod 16)) (N.to_nat ((x / 16) mod 4096)) (N.to_nat ((x / 65536) mod 16));
+  {| t_label := dec_label (N.to_nat (x mod 16)) (N.to_nat ((x / 16) mod 4096)) (N.to_nat ((x / 65536) mod 16))
+                  (N.eqb ((x / 34359738368) mod 2) 1);
      t_code := dec_opt ((x / 1048576) mod 4);
-     t_item := dec_opt ((x / 4194304) mod 8192) |}.
+     t_item := dec_opt ((x / 4194304) mod 8192);
+     t_tuple := if N.eqb ((x / 68719476736) mod 2) 1
+                then Some (dec_opt ((x / 137438953472) mod 256), dec_opt ((x / 35184372088832) mod 256),
+                           dec_opt ((x / 9007199254740992) mod 256))
+                else None |}.
 
 Definition dec_steps (ds : list N) : list tstep := map dec_step ds.
 
@@ -358,6 +394,8 @@ Definition check_case (c : case) : bool :=
       end
   end.
 
-Definition mk (l : label) : tstep := {| t_label := l; t_code := None; t_item := None |}.
-Definition mkc (l : label) (c : nat) : tstep := {| t_label := l; t_code := Some c; t_item := None |}.
-Definition mki (l : label) (c i : nat) : tstep := {| t_label := l; t_code := Some c; t_item := Some i |}.
+Definition mk (l : label) : tstep := {| t_label := l; t_code := None; t_item := None; t_tuple := None |}.
+Definition mkc (l : label) (c : nat) : tstep := {| t_label := l; t_code := Some c; t_item := None; t_tuple := None |}.
+Definition mki (l : label) (c i : nat) : tstep := {| t_label := l; t_code := Some c; t_item := Some i; t_tuple := None |}.
+Definition mkt (l : label) (c i : nat) (t : option nat * option nat * option nat) : tstep :=
+  {| t_label := l; t_code := Some c; t_item := Some i; t_tuple := Some t |}.
